@@ -1,1 +1,156 @@
-// harnesses: common_crypto
+// harnesses over /repo/src/crypto/common.rs  (C18 key API, C08 dispatch link)
+use crate::vh_common::okf;
+
+// ---------------------------------------------------------------------------------------------- codec contract
+// The text codec (to_base62 / from_base62) does not complete under CBMC even for two bytes (64-bit div/mod chains
+// around String/Vec growth). For the key API it is replaced - under the solver only - by its CONTRACT: the text denotes
+// the big-endian NUMBER, i.e. the byte string without leading zero bytes. The contract is an assumption of every
+// pass of these harnesses; a counterexample does not depend on it: native replay runs the real codec.
+const CT_CAP: usize = 6;
+static mut CT_BYTES: [[u8; 32]; CT_CAP] = [[0; 32]; CT_CAP];
+static mut CT_LEN: [usize; CT_CAP] = [0; CT_CAP];
+static mut CT_N: usize = 0;
+
+pub fn to_base62_contract(data: &[u8]) -> String {
+    assert!(data.len() <= 32);
+    let mut lead = 0;
+    while lead < data.len() && data[lead] == 0 {
+        lead += 1;
+    }
+    let n = data.len() - lead;
+    unsafe {
+        assert!(CT_N < CT_CAP, "codec contract table overflow");
+        let mut i = 0;
+        while i < n {
+            CT_BYTES[CT_N][i] = data[lead + i];
+            i += 1;
+        }
+        CT_LEN[CT_N] = n;
+        CT_N += 1;
+        let tok = [b'A' + (CT_N - 1) as u8];
+        String::from(::std::str::from_utf8(&tok).unwrap())
+    }
+}
+pub fn from_base62_contract(data: &str) -> Result<Vec<u8>, char> {
+    let b = data.as_bytes();
+    assert!(b.len() == 1 && b[0] >= b'A');
+    let k = (b[0] - b'A') as usize;
+    unsafe {
+        assert!(k < CT_N);
+        let mut v = Vec::with_capacity(32);
+        let mut i = 0;
+        while i < CT_LEN[k] {
+            v.push(CT_BYTES[k][i]);
+            i += 1;
+        }
+        Ok(v)
+    }
+}
+
+fn same32(a: &[u8], b: &[u8]) -> bool {
+    if a.len() != 32 || b.len() != 32 {
+        return false;
+    }
+    let mut i = 0;
+    while i < 32 {
+        if a[i] != b[i] {
+            return false;
+        }
+        i += 1;
+    }
+    true
+}
+
+/// C18: every key pair printed by key generation is accepted as private key, as public / trusted key and as a pair,
+/// and denotes the same keys; a private key yields its matching public key.
+#[cfg_attr(kani, kani::proof, kani::unwind(34), kani::stub(crate::util::to_base62, to_base62_contract), kani::stub(crate::util::from_base62, from_base62_contract))]
+pub fn c18_generated_keys_are_accepted() {
+    // generate_keypair(None): 32 arbitrary seed bytes from the (modelled) RNG
+    let (privkey, pubkey) = Crypto::generate_keypair(None);
+    let kp = okf(Crypto::parse_private_key(&privkey));
+    assert!(kp.is_some());
+    let kp = kp.unwrap();
+    let pk = okf(Crypto::parse_public_key(&pubkey));
+    assert!(pk.is_some());
+    let pk = pk.unwrap();
+    // the configured public key is the public key of the configured private key
+    assert!(same32(kp.public_key().as_ref(), &pk));
+    let pair = okf(Crypto::parse_keypair(&privkey, &pubkey));
+    assert!(pair.is_some());
+    assert!(same32(pair.unwrap().public_key().as_ref(), &pk));
+    let derived = okf(Crypto::public_key_from_private_key(&privkey));
+    assert!(derived.is_some());
+    let back = okf(Crypto::parse_public_key(&derived.unwrap()));
+    assert!(back.is_some() && same32(&back.unwrap(), &pk));
+    std::mem::forget(privkey);
+    std::mem::forget(pubkey);
+    vcover!(pk[0] == 0, "public_key_with_leading_zero_byte");
+    witness!();
+}
+
+// ===================================================================================================== C08-H2
+use crate::crypto::init::verif::{handle_init_rejects, mk_algos, mk_state, NoPayload};
+use crate::crypto::core::verif as corev;
+
+/// Datagram dispatch of one connection object (PeerCrypto::handle_message) for a sender without a trusted key:
+/// receive buffer with ARBITRARY stale content behind the datagram (the node reuses one buffer), datagram of `len`
+/// arbitrary bytes, connection in state
+///   0 = established, encrypted (ideal AEAD with an empty seal log: nothing an outsider sends opens)
+///   1 = established, unencrypted      2 = handshake pending (no core yet)
+///   3 = established, encrypted, handshake object still lingering
+/// Decided: no panic / arithmetic fault; an outsider's datagram never yields a message on an encrypted connection;
+/// and - whatever is returned - the buffer window stays well formed (start <= end), so that the callers'
+/// `data.len()` cannot underflow.
+fn dispatch(state: usize, len: usize) {
+    let bytes: [u8; 40] = kani::any();
+    let mut buf = MsgBuffer::new(100);
+    buf.set_length(40);
+    buf.message_mut().copy_from_slice(&bytes);
+    buf.set_length(len);
+    let core = if state == 0 || state == 3 { Some(corev::outsider_core()) } else { None };
+    let init = if state >= 2 { Some(mk_state(mk_algos(1, false, &[1.0, 1.0, 1.0], false))) } else { None };
+    let mut pc: PeerCrypto<NoPayload> =
+        PeerCrypto { node_id: [1; 16], init, rotation: None, unencrypted: state == 1, core, rotate_counter: 0 };
+    let res = okf(pc.handle_message(&mut buf));
+    assert!(buf.get_start() <= buf.get_start() + buf.len());
+    let (s, l) = (buf.get_start(), buf.len());
+    assert!(s >= 100 && s + l <= 140 + 1);
+    if len == 0 {
+        assert!(res.is_none());
+    }
+    if state != 1 {
+        // nothing an outsider sends is accepted as a message, a handshake step or a reply
+        assert!(res.is_none());
+    } else if let Some(r) = &res {
+        match r {
+            MessageResult::Message(t) => assert!(*t == bytes[0] && l == len - 1),
+            MessageResult::None => assert!(bytes[0] == 0x10),
+            _ => assert!(false),
+        }
+    }
+    assert!(pc.rotate_counter == 0 && pc.unencrypted == (state == 1));
+    std::mem::forget(pc);
+    witness!();
+}
+/// the rotation state machine is only reachable behind a successful open: for an outsider, never
+pub fn rotation_unreachable(_s: &mut crate::crypto::rotate::RotationState, _msg: &[u8]) -> Result<Option<crate::crypto::rotate::RotatedKey>, Error> {
+    assert!(false, "rotation message handling reached by a sender without key");
+    Err(Error::Crypto("unreachable"))
+}
+macro_rules! disp_inst {
+    ($($name:ident = ($st:expr, $len:expr)),*) => {$(
+        #[cfg_attr(kani, kani::proof, kani::unwind(34), kani::stub(crate::crypto::init::InitState::handle_init, handle_init_rejects),
+                   kani::stub(crate::crypto::rotate::RotationState::handle_message, rotation_unreachable))]
+        pub fn $name() {
+            dispatch($st, $len)
+        }
+    )*};
+}
+disp_inst!(
+    c08_dispatch_enc_len00 = (0, 0), c08_dispatch_enc_len01 = (0, 1), c08_dispatch_enc_len02 = (0, 2), c08_dispatch_enc_len23 = (0, 23),
+    c08_dispatch_enc_len24 = (0, 24), c08_dispatch_enc_len25 = (0, 25), c08_dispatch_enc_len40 = (0, 40),
+    c08_dispatch_plain_len00 = (1, 0), c08_dispatch_plain_len01 = (1, 1), c08_dispatch_plain_len02 = (1, 2), c08_dispatch_plain_len40 = (1, 40),
+    c08_dispatch_pending_len00 = (2, 0), c08_dispatch_pending_len01 = (2, 1), c08_dispatch_pending_len02 = (2, 2), c08_dispatch_pending_len24 = (2, 24),
+    c08_dispatch_pending_len40 = (2, 40),
+    c08_dispatch_linger_len00 = (3, 0), c08_dispatch_linger_len01 = (3, 1), c08_dispatch_linger_len24 = (3, 24), c08_dispatch_linger_len40 = (3, 40)
+);
